@@ -33,7 +33,7 @@ ASSUMPTIONS = [
     "tuple/list.__getitem__ rejects it before dask is involved), truth-testing / iterating a Delayed without nout (documented TypeError), "
     "re-using an explicit name for different data (documented as the caller's responsibility)",
     "levels >= 2 take exactly one non-atomic operand, drawn from one representative per (operation, detail, result type) class of the "
-    "previous level; the remaining operands come from a reduced atom set",
+    "previous level; the remaining operands come from a reduced atom set (quick: 3 pure modes and 2 container partners at levels >= 2)",
 ]
 
 
@@ -323,8 +323,8 @@ ATTRS = ["a", "b", "p", "q", "real", "imag"]
 METHS = [("count", (V(1),)), ("index", (V(2),)), ("upper", ()), ("get", (V("k"),)), ("get", (V("zz"), V(0))), ("keys", ()), ("bit_length", ()), ("count", (D(1),))]
 SHAPES2 = ["L", "T", "S", "Dv", "Dk", "P", "N", "LL"]
 PUREMODES = [None, False, True, "call", "cfg"]
-DEEP_PUREMODES = [None, True, "cfg"]  # levels >= 2
-DEEP_CONTAINER_OTHERS = 2  # levels >= 2: container partners are REDUCED[:2]
+DEEP_PUREMODES = [None, True, "cfg"]  # levels >= 2 (quick tier; thorough uses all five)
+DEEP_CONTAINER_OTHERS = 2  # levels >= 2: container partners are REDUCED[:2] (quick tier; thorough uses all six)
 WRAP_ITEMS = [D(2), D(3), V(3)]
 WRAP_SHAPES = ["L", "T", "S", "Dv", "Dk", "sl", "P", "N"]
 
@@ -333,7 +333,7 @@ def keyname(e):
     return f"kn-{zlib.crc32(repr(e).encode())}"
 
 
-def ops_over(xs, others, level1):
+def ops_over(xs, others, level1, full=False):
     """every operation with the 'main' operand from xs and the remaining operands from others"""
     for x in xs:
         for op in BIN:
@@ -350,7 +350,7 @@ def ops_over(xs, others, level1):
         for name, args in METHS:
             for pure in (None, True):
                 yield ("meth", x, name, args, pure)
-        for mode in PUREMODES if level1 else DEEP_PUREMODES:
+        for mode in PUREMODES if (level1 or full) else DEEP_PUREMODES:
             yield ("call", "inc", mode, (x,), (), None, None)
             yield ("call", "ident", mode, (x,), (), None, None)
             for y in others:
@@ -366,7 +366,7 @@ def ops_over(xs, others, level1):
         yield ("call", "tup", None, (x,), (), 1, None)
         yield ("call", "tup", True, (), (), 0, None)
         for shape in SHAPES2:
-            for y in others if level1 else others[:DEEP_CONTAINER_OTHERS]:
+            for y in others if (level1 or full) else others[:DEEP_CONTAINER_OTHERS]:
                 for items in ((x, y), (y, x)):
                     c = ("c", shape, items)
                     for mode in (None, True):
@@ -470,7 +470,7 @@ def programs(tier):
             if c not in seen_cls:
                 seen_cls.add(c)
                 reps.append(e)
-        level = admit(ops_over(reps, REDUCED, False))
+        level = admit(ops_over(reps, REDUCED, False, full=(tier == "thorough")))
         out.extend(level)
     _PROGS[tier] = out
     _PROGS[tier + ":inapplicable"] = stats["inapplicable"]
